@@ -235,4 +235,55 @@ def padRepeatGetScanlineBounds (srcWidth vx unitX width : Int) : Int × Int × I
   else if tmp ≥ lw.2 then (lw.2, lw.1, 0)
   else (wrapS32 tmp, lw.1, wrapS32 (lw.2 - wrapS32 tmp))
 
+/-! ### FAST_BILINEAR_MAINLOOP_INT, REPEAT_NORMAL: the three-way split of a scanline (pixman-inlines.h)
+
+The scaled-bilinear scanline functions always load the pixel PAIR `[x], [x+1]`, `x = vx >> 16`.  For NORMAL
+repeat the main loop therefore alternates between a "wrap around part" (samples in the last column
+`src_width - 1`, served from the two-pixel buffer `{row[src_width-1], row[0]}`) and a "normal scanline
+composite" part served from the row itself.  `src_width` is the width of the row handed to the scanline
+function (the image width, or the width of the stack copy for narrow images); `unit_x > 0`
+(FAST_PATH_X_UNIT_POSITIVE).  `vx += num_pixels * unit_x` is not wrapped (`vx < src_width_fixed ≤ 2^31`
+and the product is at most `src_width_fixed + unit_x`). -/
+
+/-- `num_pixels` of the wrap-around part before the `> width_remain` clamp -/
+def wrapNumPixels (swf vx ux : Int) : Int := Int.tdiv (swf - vx - fixedE) ux + 1
+/-- `num_pixels` of the normal part before the clamp -/
+def plainNumPixels (swf vx ux : Int) : Int := Int.tdiv (swf - fixed1 - vx - fixedE) ux + 1
+/-- `if (num_pixels > width_remain) num_pixels = width_remain;` -/
+def clampNum (n remain : Int) : Int := if n > remain then remain else n
+
+/-- one call of the scanline function: which buffer it reads, the `vx` it is given, how many pixels -/
+inductive Seg where
+  | wrap (vxFrac num : Int) : Seg      -- `buf1/buf2` (2 pixels), called with `pixman_fixed_frac (vx)`
+  | plain (vx num : Int) : Seg         -- the source rows, called with `vx`
+deriving Repr, DecidableEq
+
+/-- `repeat (PIXMAN_REPEAT_NORMAL, &vx, src_width_fixed)` -/
+def normVx (vx swf : Int) : Int := (Pixman.Sample.repeat .normal vx swf).getD vx
+
+/-- body of `while (width_remain > 0)`: returns the calls made and the new `(vx, width_remain)` -/
+def normalStep (srcW ux vx remain : Int) : List Seg × Int × Int :=
+  let swf := srcW * 65536
+  let vx := normVx vx swf
+  let r1 : List Seg × Int × Int :=
+    if fixedToInt vx = srcW - 1 then
+      let n := clampNum (wrapNumPixels swf vx ux) remain
+      ([Seg.wrap (fixedFrac vx) n], normVx (vx + n * ux) swf, remain - n)
+    else ([], vx, remain)
+  let vx := r1.2.1
+  let remain := r1.2.2
+  if fixedToInt vx ≠ srcW - 1 ∧ remain > 0 then
+    let n := clampNum (plainNumPixels swf vx ux) remain
+    (r1.1 ++ [Seg.plain vx n], vx + n * ux, remain - n)
+  else (r1.1, vx, remain)
+
+/-- the loop, with fuel (every iteration consumes at least one pixel, `Props.C04.normalStep_progress`) -/
+def normalLoop (srcW ux : Int) : Nat → Int → Int → List Seg
+  | 0, _, _ => []
+  | fuel + 1, vx, remain =>
+    if remain > 0 then
+      let r := normalStep srcW ux vx remain
+      r.1 ++ normalLoop srcW ux fuel r.2.1 r.2.2
+    else []
+
 end Pixman.Model.Extent
